@@ -61,7 +61,7 @@ CHECKS.update({
   "1374 byte-level pairs and 53 block-level pairs x partitions 0..16 x ForceMapAll x size limits (full product), concurrency x compression cycled, file-sequence pairs through one optimizer context, and suffix-sort concurrency -1..17 x partitions 0..16 in full product on four pairs: NewContext/Optimize must return (120 s watchdog), must not crash (journaled workers attribute process crashes) and the optimized patch must apply fresh and in place to exactly the new build.",
   "Optimized patches byte-identical to one already verified for the same pair are not re-applied.", "DESIGN.md#c07"),
  "C12": ("model_checking", E1 + " of bsdiff.Do + Patch against a reference applier and the mid-series restart oracle; explicit-state BFS to fixpoint over the real lrufile against a shadow model; constant-scaled cache geometries by overlay",
-  "All (old,new) over {0,1} up to 8x8 and {0,1,2} up to 5x5 x partitions, medium family (Thue-Morse, Fibonacci and LFSR words of 32-96 symbols under every rotation, segment deletion/duplication, flips, self-concatenation: overlapping matches), structured large family, all hand-made valid series of <=5 messages under scaled cache geometries; lrufile: every reachable shadow state (offset + LRU residency) for chunk 1..4 x entries 1..3 x sizes 0..9 explored by BFS with every seek/read/reset operation, implementation stats and data compared with the shadow model at every step.",
+  "All (old,new) over {0,1} up to 8x8 and {0,1,2} up to 5x5 x partitions, medium family (Thue-Morse, Fibonacci and LFSR words of 32-96 symbols under every rotation, segment deletion/duplication, flips, self-concatenation: overlapping matches), structured large family, all hand-made valid series of <=5 messages under scaled cache geometries; lrufile: every reachable state (shadow state = offset + LRU residency, plus the observed position of the shared underlying readers, which a later Reset meets again) for chunk 1..4 x entries 1..3 x sizes 0..9 explored by BFS with every seek/read/reset operation, implementation stats and data compared with the shadow model at every step.",
   "Sub-check scanner-interleavings runs bsdiff.Do under the controlled scheduler (bounded interleavings of suffix-sort goroutines, workers, dispatcher, collector; match channels also scaled to 1-2 slots): every schedule must produce a series that applies to new and equals the default schedule's. Underlying readers fill the buffer except at EOF.", "DESIGN.md#c12"),
  "C13": ("model_checking", E1 + " over message-size sequences x every compressor/quality x save-request positions; every popped checkpoint gob round-tripped and resumed in a brand-new source+reader stack (also second generation)",
   "All sequences of length <=2 over sizes straddling the 32KiB buffer and its power-of-two growth steps (0..4MiB+1), monotone/big-then-small sequences of length 3-4, x {none, gzip 1-9, brotli 0-9} x save before message i / every message: uninterrupted read equals the written sequence then EOF; every resumed reader yields exactly the unread suffix; checkpoint offsets are message boundaries of the independently framed stream.",
